@@ -7,6 +7,15 @@ props = [json.loads(l) for l in open(os.path.join(ROOT, 'properties.jsonl'))]
 
 # id -> (technique, level text, level note, design ref)
 CHECKS = {
+ 'C08': ('runtime monitor: boundary-table scenarios on real chains - the rule-limited transaction is rebuilt per tip and offered to ValidateBlock at every height across the bound; verdict pattern compared with the independently computed bound',
+         'For generated networks (all families, maturity delays 0-5) and 20 height/time rules (output/claim maturity v1+v2, unlock-condition and signature timelocks, above/after/legacy-uc policies against parent height and median time, v1 window start at formation/revision/proof, v2 proof height at formation/revision/proof/expiration, v1 until require height, v2 from allow height) the transaction valid except for the rule is offered at each height from before to after the bound; both sides of every flip are required; a wrong-side rejection must be the rule\'s own error, else inconclusive.',
+         'Trusted: the scenario\'s computation of each bound from network parameters and recorded heights; harness median.', '§5 C08'),
+ 'C11': ('runtime differential monitors over generated values of every wire type: round-trip/normaliser, determinism (sequential + concurrent), reflection field-influence, independent layout-table encoder, truncation, checkptr build for the cast helpers',
+         '178 registered wire types (completeness self-checked against /repo with go/parser) are exercised with generated values of every shape: decode(encode(v)) equals v up to an explicit normaliser and re-encodes byte-identically; every exported leaf field must influence the bytes unless documented as not transmitted; consensus-critical objects must equal a declaratively specified layout-table encoder (incl. hash preimages and golden addresses); every proper prefix must fail to decode; one batch runs under -race/checkptr.',
+         'Trusted: the layout tables authored from the protocol as implemented at the pinned commit plus golden IDs; the normaliser list.', '§5 C11'),
+ 'C17': ('runtime monitor: big-integer conservation oracles over random sequences of RHP constructor calls filtered through the real Validate, each result signed, funded with exactly the reported costs and submitted to the real consensus validation',
+         'Random price tables and requests that pass the real Validate drive sequences NewContract -> append/free/sector roots/fund/replenish/renew/refresh with balances steered to exact boundaries; per revision and renewal the statement\'s equalities are checked in math/big; every constructed contract/revision/renewal is accepted end-to-end by ValidateV2Transaction on a real chain state (with under/over-funded controls rejected); v1 tax inversion (rhp2/rhp3) checked over a boundary grid and through ValidateTransaction.',
+         'Trusted: math/big; the harness\'s small chain client; RHP4 Validate methods are used as a filter only.', '§5 C17'),
  'C03': ('runtime fault injection: reflection-enumerated single-field tampers and witness-level tampers of accepted blocks (not re-signed, envelope re-sealed) judged by the real ValidateBlock against a rule table',
          'Every block accepted on generated histories is tampered one point at a time: a sample of all exported leaf fields of each signed v1/v2 transaction, dropped/duplicated/surplus/swapped/foreign signatures and preimages, substituted unlock conditions and policies, revisions and renewals signed by other or by the proposed keys, attestations, Foundation changes without Foundation authorization; the rule table demands rejection except for documented exceptions which are only recorded; positive controls: untampered block accepted, tamper followed by correct re-signing accepted.',
          'Trusted: the rule table (which field classes are bound by which signature / by the accumulator) and the re-seal code.', '§5 C03'),
